@@ -1,4 +1,5 @@
 import Zlink.Model.Rx
+import Zlink.Model.Select
 /-! Server-loop model (`server/mod.rs`, `server/select_all.rs`) over the poll-level receive model.
 
 One `iter` = one pass of the `select_biased!` of `Server::run` in branch order:
@@ -6,8 +7,11 @@ One `iter` = one pass of the `select_biased!` of `Server::run` in branch order:
 rotated start index until one is ready (earlier polls *do* move bytes into their buffers), handle the
 call (`handle_call`: one reply / one error / nothing for oneway / turn into a reply stream), or drop the
 connection on a read error, an undecodable call or a failed write (`swap_remove`);
-3. reply streams: next item of the stream at the rotated index is written to its client, the connection
-returns to `conns` when the stream ends, the subscription is dropped when the write fails.
+3. reply streams: `SelectAll` over the streams' `next()` futures from the rotated start index; the first stream
+that has a result ready (`credit > 0`: the service's stream hands over an item, or its end, only when the
+environment event `produce` has made one available — until then its `next()` is pending and polling it changes
+nothing) wins: its item is written to its client, the connection returns to `conns` when the stream ends, the
+subscription is dropped when the write fails.
 
 The service is the fixed family the correspondence harness implements (echo / error / stream of `n`
 items with a flag pattern / undecodable call). Ghost fields (`good`, `frames`, `descs`, `fut`, `k`) are never read by the loop. -/
@@ -37,6 +41,7 @@ structure Conn where
   out : List Tok          -- what the client has been sent
   wfail : Option Nat      -- transport fault script: the write number `k` (0-based) and all later ones fail
   nwrites : Nat
+  credit : Nat            -- results (items, or the end of the stream) the service's reply stream for this client can hand over now
   -- ghost state (never read by the loop)
   good : Bool             -- this client behaves: sends whole frames, closes only afterwards, accepts writes
   frames : List (List Byte)
@@ -102,8 +107,17 @@ def writeTo (c : Conn) (toks : List Tok) : Option Conn :=
   | some k => if c.nwrites ≥ k then none else some { c with out := c.out ++ toks, nwrites := c.nwrites + 1 }
   | none => some { c with out := c.out ++ toks, nwrites := c.nwrites + 1 }
 
+/-- readiness of reply stream `j`: its `next()` future would complete if polled now -/
+def streamReady (ss : List (List (Nat × Option Bool) × Conn)) (j : Nat) : Bool :=
+  match ss[j]? with
+  | some p => decide (0 < p.2.credit)
+  | none => false
+
 /-- the start index of the next `get_next_call` scan: right after the previous winner -/
 def nextStart (s : S) : Nat := match s.lastCall with | some i => i + 1 | none => 0
+
+/-- the start index of the next scan of the reply streams: right after the previous winner -/
+def streamStart (last : Option Nat) : Nat := match last with | some i => i + 1 | none => 0
 
 def iter (C : Consts) (sizes : Nat → Nat) (s : S) : Option S :=
   match s.listenQ with
@@ -137,11 +151,13 @@ def iter (C : Consts) (sizes : Nat → Nat) (s : S) : Option S :=
       let s := { s with conns := sc.1 }
       let m := s.streams.length
       if m = 0 then none else
-      let sstart := match s.lastStream with | some i => i + 1 | none => 0
-      let idx := sstart % m
+      match Sel.scan m (streamStart s.lastStream) (streamReady s.streams) m with
+      | none => none
+      | some idx =>
       match s.streams[idx]? with
       | none => none
-      | some (items, c) =>
+      | some (items, c0) =>
+        let c : Conn := { c0 with credit := c0.credit - 1 }
         let s := { s with lastStream := some idx }
         match items with
         | [] => some { s with streams := swapRemove s.streams idx, conns := s.conns ++ [c] }
@@ -156,6 +172,8 @@ def iter (C : Consts) (sizes : Nat → Nat) (s : S) : Option S :=
 def arriveC (b : List Byte) (c : Conn) : Conn :=
   { c with net := { c.net with avail := c.net.avail ++ b }, fut := c.fut.drop b.length }
 def closeC (c : Conn) : Conn := { c with net := { c.net with closed := true } }
+/-- the service makes `n` more results of this client's reply stream available -/
+def produceC (n : Nat) (c : Conn) : Conn := { c with credit := c.credit + n }
 
 def mapConns (f : Conn → Conn) (s : S) : S :=
   { s with conns := s.conns.map f, listenQ := s.listenQ.map f,
@@ -165,6 +183,7 @@ inductive Ev
   | connect (c : Conn)
   | arrive (id : Nat) (b : List Byte)
   | close (id : Nat)            -- peer closes (or the transport starts failing reads)
+  | produce (id : Nat) (n : Nat) -- the service makes `n` more stream results (items / end of stream) available for this client
   | run (fuel : Nat)            -- the executor polls the server future
 
 /-- one poll of `Server::run`: iterate until every branch is pending -/
@@ -176,6 +195,7 @@ def step (C : Consts) (sizes : Nat → Nat) (s : S) : Ev → S
   | .connect c => { s with listenQ := s.listenQ ++ [c] }
   | .arrive id b => mapConns (fun c => if c.id = id then arriveC b c else c) s
   | .close id => mapConns (fun c => if c.id = id then closeC c else c) s
+  | .produce id n => mapConns (fun c => if c.id = id then produceC n c else c) s
   | .run fuel => pollServer C sizes fuel s
 
 def S.all (s : S) : List Conn := s.conns ++ s.listenQ ++ s.streams.map (·.2) ++ s.dead
